@@ -347,6 +347,7 @@ def run_t8_t9(chk, repo):
     run_t10(chk, repo)
     run_t11(chk, repo)
     run_t12(chk, repo)
+    run_t13_t14(chk, repo)
 
 
 def run_t10(chk, repo):
@@ -543,3 +544,53 @@ def run_t12(chk, repo):
                       line=f.node.lineno,
                       witness='METABOLITE(BASIC) on an oral model: the absorption category disappears from get_model_features, '
                               'a following ABSORPTION(FO) is not a no-op and loses the lag time')
+
+
+def run_t13_t14(chk, repo):
+    """T13: set_instantaneous_absorption removes the depot AND THEN turns a zero-order input into a bolus (a sequential
+    zero-order / first-order model needs both steps); T14: get_model_features reports every category from its own detector,
+    not conditioned on what another category found"""
+    om = repo.module(ODES)
+    T13 = chk.rule('T13', 'set_instantaneous_absorption: the zero-order step is tested after the depot step, not instead of it',
+                   floor=1)
+    f = om.functions.get('set_instantaneous_absorption')
+    if f is None:
+        raise AnalysisError('set_instantaneous_absorption not found')
+    cfg = CFG(f.node)
+    zo = [n for n in cfg.nodes.values() if n.kind == 'test' and n.ast is not None and any(
+        isinstance(c, ast.Call) and dotted(c.func) == 'has_zero_order_absorption' for c in ast.walk(n.ast))]
+    depot_steps = [n for n in cfg.nodes.values() if n.kind == 'stmt' and n.ast is not None and any(
+        isinstance(c, ast.Call) and isinstance(c.func, ast.Attribute) and c.func.attr in ('remove_compartment', 'move_dose')
+        for c in ast.walk(n.ast))]
+    if not zo or not depot_steps:
+        raise AnalysisError(f'T13: zero-order test ({len(zo)}) / depot removal ({len(depot_steps)}) not found')
+    for z in zo:
+        ok = any(z.id in cfg.reachable(d.id, labels_excluded=('exc', 'fexc')) for d in depot_steps)
+        chk.instance(T13, f'set_instantaneous_absorption: `{unparse(z.ast)[:50]}` is still tested after the depot was removed: {ok}')
+        if not ok:
+            chk.violation(T13, om.rel, f.name, f'elif {unparse(z.ast)[:50]}',
+                          'for a sequential zero-order / first-order absorption only the depot is removed: the infusion into '
+                          'the central compartment stays', line=z.line,
+                          witness='set_seq_zo_fo_absorption then set_instantaneous_absorption: the model is detected as zero '
+                                  'order absorption, a second call changes it again')
+    T14 = chk.rule('T14', 'get_model_features: the lag-time feature is has_lag_time(model), whatever the other features are',
+                   floor=1)
+    pm = repo.module(f'{MFL}.parse')
+    g = pm.functions.get('get_model_features')
+    if g is None:
+        raise AnalysisError('get_model_features not found')
+    n14 = 0
+    for a in walk_no_nested(g.node):
+        if isinstance(a, ast.Assign) and isinstance(a.targets[0], ast.Name) and any(
+                isinstance(c, ast.Call) and dotted(c.func) == 'has_lag_time' for c in ast.walk(a.value)):
+            n14 += 1
+            direct = isinstance(a.value, ast.Call) and dotted(a.value.func) == 'has_lag_time'
+            chk.instance(T14, f'get_model_features: `{unparse(a)[:60]}` takes the detector result as it is: {direct}')
+            if not direct:
+                chk.violation(T14, pm.rel, g.name, unparse(a)[:90],
+                              'the detector is consulted only for some values of another feature: a model with that feature and '
+                              'a lag time is reported without LAGTIME(ON)', line=a.lineno,
+                              witness='TRANSITS(3) then add_lag_time: get_model_features has no LAGTIME(ON) although has_lag_time '
+                                      'is True')
+    if n14 == 0:
+        raise AnalysisError('T14: has_lag_time(model) not found in get_model_features')
